@@ -88,6 +88,9 @@ class ShapeGen:
             return ["Array", r.randint(1, 3), self.node(depth - 1)]
         if c < 0.74:
             return ["Prefixed", r.choice([B, ["name", "VarInt"], ["name", "Int16ul"]]), self.node(depth - 1), False]
+        if c < 0.775:
+            # a tunnel behind a length prefix: the inner format is built / parsed on a stream of its own, the names go on
+            return ["Prefixed", r.choice([B, ["name", "Int16ul"]]), ["Compressed", self.node(depth - 1), "zlib"], False]
         if c < 0.82:
             inner = self.node(depth - 1)
             try:
@@ -132,6 +135,8 @@ def named_paths(r, prefix=()):
         out += named_paths(r[2], prefix)
     elif k in ("Prefixed", "FixedSized"):
         out += named_paths(r[2], prefix)
+    elif k == "Compressed":
+        out += named_paths(r[1], prefix)
     elif k == "IfThenElse":
         out += named_paths(r[2] if r[1] else r[3], prefix)
     elif k == "Switch":
@@ -140,7 +145,7 @@ def named_paths(r, prefix=()):
 
 
 def is_container(r):
-    return r[0] in ("Struct", "Sequence", "Array", "Prefixed", "FixedSized", "IfThenElse", "Switch")
+    return r[0] in ("Struct", "Sequence", "Array", "Prefixed", "FixedSized", "IfThenElse", "Switch", "Compressed")
 
 
 def replace_leaf(r, chain, newleaf, prefix=()):
@@ -170,6 +175,8 @@ def replace_leaf(r, chain, newleaf, prefix=()):
         return [k, r[1], replace_leaf(r[2], chain, newleaf, prefix), r[3]]
     if k == "FixedSized":
         return [k, r[1], replace_leaf(r[2], chain, newleaf, prefix)]
+    if k == "Compressed":
+        return [k, replace_leaf(r[1], chain, newleaf, prefix)] + r[2:]
     if k == "IfThenElse":
         return [k, r[1], replace_leaf(r[2], chain, newleaf, prefix) if r[1] else r[2], r[3] if r[1] else replace_leaf(r[3], chain, newleaf, prefix)]
     if k == "Switch":
@@ -202,6 +209,8 @@ def set_value(r, v, chain, bad, prefix=()):
         return out
     if k in ("Prefixed", "FixedSized"):
         return set_value(r[2], v, chain, bad, prefix)
+    if k == "Compressed":
+        return set_value(r[1], v, chain, bad, prefix)
     if k == "IfThenElse":
         return set_value(r[2] if r[1] else r[3], v, chain, bad, prefix)
     if k == "Switch":
@@ -342,8 +351,8 @@ def run_shape(ctx, rng, r):
     ctx.count("truncations", len(enc))
     # ---- parsing: a validating leaf given invalid content (undecodable text) - the failure is inside that member
     for ev in events:
-        if ev[2] is None or ev[3] is None or ev[4] is None or ev[4] - ev[3] < 2:
-            continue
+        if ev[2] is None or ev[3] is None or ev[4] is None or ev[4] - ev[3] < 2 or ev[6] != id(s):
+            continue                      # (members inside a tunnel live on a stream of their own: their offsets are not offsets of the encoding)
         if any(e2[10] > ev[10] and e2[11] is not None and e2[11] < ev[11] for e2 in events):
             continue                      # not a leaf member
         con = ev[9]
@@ -416,6 +425,59 @@ def run_shape(ctx, rng, r):
             ctx.count("sizeof_failures")
             if len(chain) >= 2:
                 ctx.nontrivial("s", shape(r), chain, unsized[0])
+
+
+def region_end_failures(ctx):
+    """failures that are detected when a region is wrapped up rather than inside one of its leaves: a bit-level region of
+    data-dependent size that ends inside a byte (parse: bits decoded but not consumed; build: bits left unflushed) under named
+    members, and failures inside a tunnel - the error carries the operation and the names down to the region"""
+    import construct as C
+    bits = C.Bitwise(C.Struct("n" / C.Nibble, "bits" / C.Array(C.this.n, C.Bit)))
+    tun = C.Prefixed(C.Byte, C.Compressed(C.Struct("k" / C.Byte, "body" / C.Struct("v" / C.Int16ub, "e" / C.Enum(C.Byte, a=1))), "zlib"))
+    import zlib
+    cases = []
+    for n in (1, 2, 3, 5, 6, 7):
+        for wrapname, wrap, chain in (("direct", lambda x: C.Struct("r" / x), ["r"]), ("nested", lambda x: C.Struct("h" / C.Byte, "msg" / C.Struct("flags" / x, "t" / C.Byte)), ["msg", "flags"]),
+                                      ("array", lambda x: C.Struct("xs" / C.Array(1, C.Struct("f" / x))), ["xs", "f"]), ("prefixed", lambda x: C.Struct("p" / C.Prefixed(C.Byte, C.Struct("q" / x))), ["p", "q"])):
+            d = wrap(bits)
+            val = {"n": n, "bits": [1] * n}
+            v = {"direct": {"r": val}, "nested": {"h": 1, "msg": {"flags": val, "t": 2}}, "array": {"xs": [{"f": val}]}, "prefixed": {"p": {"q": val}}}[wrapname]
+            data = {"direct": b"", "nested": b"\x01", "array": b"", "prefixed": b"\x02"}[wrapname] + bytes([(n << 4) | 0x0f, 0xff]) + b"\x02"
+            cases.append(("bit-region-ends-inside-a-byte:" + wrapname, d, v, data, chain, chain))
+    for bad, chain in (({"k": 1, "body": {"v": 70000, "e": "a"}}, ["body", "v"]), ({"k": 1, "body": {"v": 1, "e": "zz"}}, ["body", "e"]), ({"k": 300, "body": {"v": 1, "e": "a"}}, ["k"])):
+        for wrapname, wrap, pre in (("direct", lambda x: C.Struct("z" / x), ["z"]), ("nested", lambda x: C.Struct("h" / C.Byte, "msg" / C.Struct("z" / x)), ["msg", "z"])):
+            d = wrap(tun)
+            v = {"direct": {"z": bad}, "nested": {"h": 1, "msg": {"z": bad}}}[wrapname]
+            cases.append(("tunnel:" + wrapname, d, v, None, pre + chain, None))
+    # parsing inside a tunnel: the decompressed data is too short for the inner format / carries an unknown constant
+    for inner_data, chain in ((b"\x01\x00", ["body", "v"]), (b"\x01", ["body", "v"]), (b"", ["k"])):
+        comp = zlib.compress(inner_data)
+        for wrapname, wrap, pre, head in (("direct", lambda x: C.Struct("z" / x), ["z"], b""), ("nested", lambda x: C.Struct("h" / C.Byte, "msg" / C.Struct("z" / x)), ["msg", "z"], b"\x07")):
+            cases.append(("tunnel:" + wrapname, wrap(tun), None, head + bytes([len(comp)]) + comp, None, pre + chain))
+    for label, d, v, data, bchain, pchain in cases:
+        if v is not None:
+            ctx.ev()
+            case = {"op": "region-end", "label": label, "direction": "build", "value": tag(v)}
+            try:
+                d.build(v)
+                ctx.count("region_end_build_accepted")
+            except C.ConstructError as e:
+                check_path(ctx, e, "(building)", bchain, "build", case, label)
+                ctx.count("region_end_failures")
+            except Exception as e:
+                ctx.violation("build-error-not-a-ConstructError:%s" % type(e).__name__, "%s: build raised %s: %s" % (label, type(e).__name__, str(e)[:120]), case)
+        if data is not None and pchain is not None:
+            ctx.ev()
+            case = {"op": "region-end", "label": label, "direction": "parse", "encoding": tag(data)}
+            try:
+                d.parse(data)
+                ctx.count("region_end_parse_accepted")
+            except C.ConstructError as e:
+                check_path(ctx, e, "(parsing)", pchain, "parse", case, label)
+                ctx.count("region_end_failures")
+            except Exception as e:
+                ctx.violation("parse-error-not-a-ConstructError:%s" % type(e).__name__, "%s: parse raised %s: %s" % (label, type(e).__name__, str(e)[:120]), case)
+        ctx.nontrivial("region-end", label, tuple(bchain or pchain))
 
 
 def dedupe_members(active):
@@ -544,6 +606,8 @@ def run(ctx):
     monitors.MEMBERS.install()
     if ctx.index == 0:
         lazy_truncations(ctx)
+    if ctx.index == 1 % ctx.nworkers:
+        region_end_failures(ctx)
     n = ctx.pick(4000, 60000) // ctx.nworkers
     for i in range(n):
         g = ShapeGen(rng, rng.choice([2, 3, 3, 4]))
@@ -557,6 +621,8 @@ def run(ctx):
 def replay(ctx, case):
     if case.get("op") == "lazy-truncation":
         return lazy_truncations(ctx)
+    if case.get("op") == "region-end":
+        return region_end_failures(ctx)
     import random
     monitors.MEMBERS.install()
     run_shape(ctx, random.Random(0), case["recipe"])
